@@ -371,7 +371,7 @@ def ex_catalog(ctx, fc, seed=0):
                         ctx.violate("evaluation raises for one storage order only", rc, observed=repr(o)[:100], expected=repr(b)[:100], tags=tags)
                     continue
                 compare(ctx, rc, tags, b, o, "stat" if kind == "sim" else "multiset")
-        if J >= 2 and len({tuple(c) for c in map(tuple, fc["cats"])}) >= 2:
+        if J >= 2 and len({tuple(tuple(e) for e in c) for c in fc["cats"]}) >= 2:
             ctx.nt(digest((fc, seed)))
     finally:
         for fn_ in os.listdir(tmp):
